@@ -1,5 +1,88 @@
-(** C08 — pinned statements (placeholder until C08_Proofs lands). *)
-From TU Require Import Base C08_Model.
-Theorem step_by_one : forall (A : Type) (l : list A), step_by 1 l = l.
-Proof. intros A l. unfold step_by. induction l as [|x l IH]; cbn; [reflexivity|]. f_equal. exact IH. Qed.
-Print Assumptions step_by_one.
+(** C08 — pinned statements: the index algebra of the train loader
+    (enumerate / take(limit) / skip(skip + fast_forward + rank) / step_by(world_size)),
+    delivered streams, and transparency of the threaded stages. *)
+From Coq Require Import Sorting.Sorted.
+From TU Require Import Base C08_Model C08_Proofs Pipe_Model Pipe_Proofs Pipe_Proofs2 Pipe_Proofs3 C05_Model C05_Proofs C09_Model C09_Proofs.
+
+(** which global indices a rank selects *)
+Theorem sel_mem : forall lim skip ff rank W N i, 1 <= W ->
+  In i (sel lim skip ff rank W N) <-> exists j, i = skip + ff + rank + j * W /\ i < Nat.min lim N.
+Proof. exact sel_mem_l. Qed.
+Print Assumptions sel_mem.
+
+(** in increasing order (so the per-rank order is the global order) *)
+Theorem sel_sorted : forall lim skip ff rank W N, StronglySorted lt (sel lim skip ff rank W N).
+Proof. exact sel_sorted_l. Qed.
+Print Assumptions sel_sorted.
+
+Theorem ranks_disjoint : forall lim skip ff W N r1 r2 i, r1 < W -> r2 < W -> r1 <> r2 ->
+  In i (sel lim skip ff r1 W N) -> In i (sel lim skip ff r2 W N) -> False.
+Proof. exact ranks_disjoint_l. Qed.
+Print Assumptions ranks_disjoint.
+
+(** union over the ranks = the single-process stream with the same skip / limit / fast-forward
+    (for every fast-forward offset, not only multiples of W) *)
+Theorem ranks_union : forall lim skip ff W N i, 1 <= W ->
+  In i (sel lim skip ff 0 1 N) <-> exists r, r < W /\ In i (sel lim skip ff r W N).
+Proof. exact ranks_union_l. Qed.
+Print Assumptions ranks_union.
+
+(** limit = k and skip = k split the data: no overlap, nothing lost *)
+Theorem limit_part : forall k N i, In i (sel k 0 0 0 1 N) <-> i < Nat.min k N.
+Proof. exact limit_part_l. Qed.
+Print Assumptions limit_part.
+Theorem skip_part : forall k N i, In i (sel N k 0 0 1 N) <-> k <= i < N.
+Proof. exact skip_part_l. Qed.
+Print Assumptions skip_part.
+
+(** fast_forward(k) in a single process = drop the first k items of the uninterrupted selection, same order *)
+Theorem fast_forward_single : forall lim skip k N, sel lim skip k 0 1 N = skipn k (sel lim skip 0 0 1 N).
+Proof. exact fast_forward_single_l. Qed.
+Print Assumptions fast_forward_single.
+
+(** in a world of size W, fast_forward(k*W) = every rank drops its own first k items *)
+Theorem fast_forward_world : forall lim skip k r W N, 1 <= W ->
+  sel lim skip (k * W) r W N = skipn k (sel lim skip 0 r W N).
+Proof. exact fast_forward_world_l. Qed.
+Print Assumptions fast_forward_world.
+
+(** delivered items (line parsed, pipeline Ok): selection filtered by per-index facts only — whether
+    and how index i is processed does not depend on rank, world size or fast-forward offset *)
+Theorem stream_mem : forall oks res lim skip ff rank W N i,
+  In i (stream oks res lim skip ff rank W N) <->
+  In i (sel lim skip ff rank W N) /\ nth i oks false = true /\ nth i res false = true.
+Proof. exact stream_mem_l. Qed.
+Print Assumptions stream_mem.
+
+Theorem stream_resume : forall oks res lim skip k N,
+  stream oks res lim skip k 0 1 N = filter (fun i => skip + k <=? i) (stream oks res lim skip 0 0 1 N).
+Proof. exact stream_resume_l. Qed.
+Print Assumptions stream_resume.
+
+Theorem stream_rank : forall oks res lim skip ff rank W N, 1 <= W ->
+  stream oks res lim skip ff rank W N =
+  filter (fun i => (skip + ff + rank <=? i) && Nat.eqb ((i - (skip + ff + rank)) mod W) 0)
+         (stream oks res lim skip 0 0 1 N).
+Proof. exact stream_rank_l. Qed.
+Print Assumptions stream_rank.
+
+(** the threaded stages are transparent: whatever the worker count (>= 1) and the schedule, a
+    maximal execution of the Pipe stage delivers exactly [map g inp] (C05), and of the Buffered
+    stage exactly its upstream in order (C09); with 0 workers the code is [map] itself *)
+Theorem pipe_stage_transparent : forall (A B : Type) (g : A -> B) (d : A) (inp : list A) (W : nat) tr (s : state A B),
+  0 < W -> run A B g d (init A B inp W) tr = Some s -> dropped s = false ->
+  (forall lab, lab <> Drop -> step A B g d s lab = None) -> out s = map g inp.
+Proof. intros A B g d inp W tr s HW H Hd Hno. apply (pipe_terminal_l A B g d inp W tr s HW H Hd Hno). Qed.
+Print Assumptions pipe_stage_transparent.
+
+Theorem buffered_stage_transparent : forall sof n cap tr s,
+  brun sof (binit n cap) tr = Some s -> bdropped s = false ->
+  (forall l, l <> BDrop -> bstep sof s l = None) -> bout s = seq 0 n.
+Proof. intros sof n cap tr s H Hd Hno. apply (buf_terminal_top sof n cap tr s H Hd Hno). Qed.
+Print Assumptions buffered_stage_transparent.
+
+(** Non-vacuity / sanity: 3 ranks over 10 items, skip 1, limit 9 *)
+Example sel_example :
+  sel 9 1 0 0 3 10 = [1; 4; 7] /\ sel 9 1 0 1 3 10 = [2; 5; 8] /\ sel 9 1 0 2 3 10 = [3; 6]
+  /\ sel 9 1 0 0 1 10 = [1; 2; 3; 4; 5; 6; 7; 8] /\ sel 9 1 3 1 3 10 = [5; 8].
+Proof. vm_compute. repeat split. Qed.
